@@ -374,3 +374,7 @@ CHECKS["C19"]["runs"] = CHECKS["C19"]["runs"] + [
     {"name": "run.ll.parts.audio", "files": C19F, "fn": "VerifH_C19_run", "workers": 16, "params": {"AUDIO": 1}, "params_quick": {"K": 10}, "params_thorough": {"K": 14},
      "reach": ["non-final-part", "end"], "budget_quick": 900, "budget_thorough": 7200}]
 CHECKS["C19"]["runs"][0]["params_quick"] = {"TABLE": 19}
+
+CHECKS["C18"]["runs"] = CHECKS["C18"]["runs"] + [
+    {"name": "run.mux.initfail", "files": [G + "c18_initfail.go", G + "c06_reload.go"] + MUX, "fn": "VerifH_C18_initfail", "workers": 16, "params": {"DISK": 1},
+     "params_quick": {"K": 9}, "params_thorough": {"K": 12}, "reach": ["write-failed", "end"]}]
